@@ -113,6 +113,7 @@ type c18Result struct {
 	pmsg     string
 	alloc    uint64
 	allocSet bool
+	stuck    bool // the second decode into the receiver did not return
 	second   bool // the panic struck in the second decode into one receiver
 }
 
@@ -205,7 +206,16 @@ func c18Decode(target int, data []byte, mm *ugo.ModuleMap, rd io.Reader) (res c1
 			res.ok = err == nil
 			res.alloc, res.allocSet = heapAllocs()-before, true
 			res.second = true
-			_ = x.UnmarshalBinary(data)
+			var inner any
+			if !sim.Watchdog(15*time.Second, func() {
+				defer func() { inner = recover() }()
+				_ = x.UnmarshalBinary(data)
+			}) {
+				res.stuck = true
+			}
+			if inner != nil {
+				panic(inner)
+			}
 			res.second = false
 		}
 	case c18TargetStream:
@@ -256,6 +266,11 @@ func c18Check(rc *sim.RunCtx, target int, data []byte, mm *ugo.ModuleMap, what s
 	} else if res.alloc > c18AllocBound(len(data)) {
 		rc.FailCase(caseTape(target, data), "alloc-out-of-proportion", "alloc:"+c18TargetName(target),
 			"%s allocated %d bytes for a %d-byte input (%s); bound is 16 MiB + 256×len", c18TargetName(target), res.alloc, len(data), what)
+	}
+	if res.stuck {
+		rc.Fatal = true
+		rc.FailCase(caseTape(target, data), "decode-does-not-return", "stuck:"+c18TargetName(target),
+			"the second %s into one receiver did not return within 15 s (%s, len %d): neither a value nor an error", c18TargetName(target), what, len(data))
 	}
 	if res.ok {
 		rc.Probe("corrupt-input-decoded-ok")
@@ -344,6 +359,27 @@ func c18Crafted(v2 []byte, bc *ugo.Bytecode) [][]byte {
 		in = append(in, sz...)
 		in = append(in, fs...)
 		out = append(out, in)
+	}
+	// 4. a valid program whose constants also hold values no compiler emits but any host may put there (and any
+	// encoder writes): errors named like builtin errors, builtin functions and nothing at all, runtime errors, times
+	// with and without location, pointers, sync maps, nested containers of them
+	{
+		extras := []ugo.Object{
+			&ugo.Error{Name: "error", Message: "boom"}, &ugo.Error{Name: "len"}, &ugo.Error{Name: "TypeError", Message: "x"}, &ugo.Error{},
+			&ugo.Error{Name: "__module_name__"}, &ugo.Error{Name: "ZeroDivisionError", Cause: ugo.ErrZeroDivision},
+			(&ugo.Error{Name: "Wrapped", Message: "inner"}).NewError("outer"),
+			&ugotime.Time{Value: time.Unix(1600000000, 5).UTC()}, &ugotime.Time{Value: time.Unix(1, 0).In(time.FixedZone("X", 3600))},
+			&ugo.SyncMap{Value: ugo.Map{"t": &ugotime.Time{Value: time.Unix(2, 0)}}},
+			ugo.Map{"e": &ugo.Error{Name: "printf"}, "a": ugo.Array{&ugo.Error{Name: "append", Message: "m"}}},
+		}
+		for i := range extras {
+			cp := *bc
+			cp.Constants = append(append([]ugo.Object{}, bc.Constants...), extras[i], extras[(i+3)%len(extras)])
+			var b bytes.Buffer
+			if err := encoder.EncodeBytecodeTo(&cp, &b); err == nil {
+				out = append(out, b.Bytes())
+			}
+		}
 	}
 	// 3. names of builtin modules replaced by same-length names of source modules and of modules that do not exist
 	for _, pair := range [][2]string{{"host", "modA"}, {"host", "modB"}, {"json", "modA"}, {"time", "modC"}, {"host", "nope"}, {"strings", "modules"}} {
@@ -481,7 +517,8 @@ func c18Run(rc *sim.RunCtx) {
 	if ob, err := (*encoder.CompiledFunction)(bc.Main).MarshalBinary(); err == nil {
 		inputs = append(inputs, c18Input{"object:main", []int{c18TargetObject, c18TargetStream}, ob})
 	}
-	extra := ugo.Array{ugo.Map{"e": &ugo.Error{Name: "N", Message: "m"}}, &ugo.SyncMap{Value: ugo.Map{"a": ugo.Int(1)}}, ugo.Bytes{1, 2}, ugo.Char('x'), ugo.Uint(7), ugo.Float(1.5)}
+	extra := ugo.Array{ugo.Map{"e": &ugo.Error{Name: "N", Message: "m"}}, &ugo.SyncMap{Value: ugo.Map{"a": ugo.Int(1)}}, ugo.Bytes{1, 2}, ugo.Char('x'), ugo.Uint(7), ugo.Float(1.5),
+		&ugotime.Time{Value: time.Unix(1600000000, 5).UTC()}}
 	if ob, err := encoder.Array(extra).MarshalBinary(); err == nil {
 		inputs = append(inputs, c18Input{"object:gob-and-syncmap", []int{c18TargetObject, c18TargetStream}, ob})
 	}
